@@ -966,7 +966,11 @@ fn hash_hex(v: &serde_json::Value, check: &str) -> String {
 }
 
 pub fn write_replay(ctx: &Ctx, prop: &str, f: &Failure) -> PathBuf {
-    let dir = ctx.root.join("replays");
+    // VERIF_REPLAY_DIR: used by the mutant scripts so that replay files of seeded changes do not
+    // land next to those of the tree under test.
+    let dir = std::env::var_os("VERIF_REPLAY_DIR")
+        .map(PathBuf::from)
+        .unwrap_or_else(|| ctx.root.join("replays"));
     let _ = std::fs::create_dir_all(&dir);
     let path = dir.join(format!(
         "{}-{}-{}.json",
